@@ -31,16 +31,29 @@ def ev_combink(l, p):
     r, exc = call(lambda: [list(x) for x in combink(list(l), p, 0)])
     return dict(op='combink', l=list(l), p=p, obs=r or [], raised=exc)
 
-def ev_sum(which, items, s):
+class Opaque(dict):
+    """an item object that can be neither ordered nor hashed (the helpers get (object, weight) pairs and must not look at the object)"""
+    __hash__ = None
+
+def ev_sum(which, items, s, opaque=False, live=None):
+    """items: [[id, weight], ...].  opaque: the objects handed to the helper are unorderable, unhashable dicts (mapped back by identity).
+    live: a list object that persists between calls (the caller edits it in place between calls); it must hold exactly `items`."""
     from crysp.utils import knapsack
-    its = [tuple(x) for x in items]
-    r, exc = call(lambda: getattr(knapsack, which)(list(its), s))
+    if live is not None: arg = live
+    elif opaque: arg = [(Opaque(id=x[0]), x[1]) for x in items]
+    else: arg = [tuple(x) for x in items]
+    before = list(arg)
+    r, exc = call(lambda: getattr(knapsack, which)(arg if live is not None else list(arg), s))
     e = dict(op=which, items=[list(x) for x in items], s=s, raised=exc, obs=[], kind='fail')
+    if opaque: e['opaque'] = True
+    if live is not None:
+        e['live'] = True
+        if len(arg) != len(before) or any(a is not b for a, b in zip(arg, before)): e['kind'] = 'other:argument-list-changed'; return e
     if exc: return e
     if r is None or r is False: e['kind'] = 'fail'
     elif isinstance(r, list):
         try:
-            e['obs'] = [[int(a), int(b)] for a, b in r]; e['kind'] = 'list'
+            e['obs'] = [[int(a['id'] if isinstance(a, dict) else a), int(b)] for a, b in r]; e['kind'] = 'list'
         except Exception:
             e['kind'] = 'other'
     else: e['kind'] = 'other:' + type(r).__name__
@@ -99,7 +112,36 @@ def run(ctx):
         for s in range(0, sum(w for _, w in items) + 1):
             ev.append(ev_sum('exactsum', items, s)); ev.append(ev_sum('dynprog', items, s))
         traces.append(dict(ev=ev))
-    ctx.exhaustive_subspaces.append('every multiset of <= %d weights in 1..4, in both orders, every target 0..sum+1; each call repeated' % M)
+    # opaque item objects (unorderable, unhashable): every multiset again, one call per target
+    for n in range(1, M + 1):
+        for ws in itertools.combinations_with_replacement((1, 2, 3, 4), n):
+            items = [[i + 1, w] for i, w in enumerate(ws)]
+            ev = []
+            for s in range(0, sum(ws) + 2):
+                ev.append(ev_sum('exactsum', items, s, opaque=True)); ev.append(ev_sum('dynprog', items, s, opaque=True))
+            traces.append(dict(ev=ev)); ctx.mark(('so', str(items)))
+    # ONE list object edited in place between calls (append / replace / delete): every call answers for the list as it is now
+    for which in ('dynprog', 'exactsum'):
+        for base in ([[1, 3], [2, 5]], [[1, 2], [2, 2], [3, 7]], [[1, 4]]):
+            L = [tuple(x) for x in base]; ev = []
+            def cur(): return [list(x) for x in L]
+            tot = sum(w for _, w in L)
+            ev.append(ev_sum(which, cur(), tot, live=L)); ev.append(ev_sum(which, cur(), tot, live=L))
+            L.append((9, tot)); ev.append(ev_sum(which, cur(), tot, live=L))
+            L[0] = (8, L[0][1] + 1); ev.append(ev_sum(which, cur(), base[0][1], live=L)); ev.append(ev_sum(which, cur(), tot + 1, live=L))
+            del L[-1]; ev.append(ev_sum(which, cur(), tot, live=L)); ev.append(ev_sum(which, cur(), tot + 1, live=L))
+            L.insert(0, (7, 1)); ev.append(ev_sum(which, cur(), 1, live=L)); ev.append(ev_sum(which, cur(), tot + 2, live=L))
+            traces.append(dict(ev=ev)); ctx.mark(('live', which, str(base)))
+    # long lists with repeats: a long non-increasing tail that contains the pivot's value (successor / wrap-around)
+    for n in ((17, 18, 20, 24, 33) if big else (18, 20, 33)):
+        ev = []
+        for q in range(6 if big else 3):
+            tail = sorted((rnd.randrange(3) for _ in range(n - 2)), reverse=True)
+            l = [rnd.randrange(2), rnd.choice(tail[len(tail) // 2:] + [0])] + tail
+            ev.append(ev_nextperm(l)); ev.append(ev_nextperm(l[1:]))
+        ev.append(ev_nextperm([0, 1] + [2] * (n // 3) + [1] * (n // 3) + [0] * (n // 3)))
+        traces.append(dict(ev=ev)); ctx.mark(('longperm', n))
+    ctx.exhaustive_subspaces.append('every multiset of <= %d weights in 1..4, in both orders, every target 0..sum+1; each call repeated; again with opaque item objects; one list object edited in place between calls' % M)
     ctx.evaluations = sum(len(t['ev']) for t in traces)
     ctx.sample(traces[40]['ev'][:3]); ctx.sample(traces[-5]['ev'][:4])
     bad = ctx.validate('trace/Trace_Combinat.tla', traces, lambda t: len(t['ev']), what='Trace_Combinat')
@@ -110,6 +152,6 @@ def run(ctx):
     clean2 = dict(ev=[ev_permutk([1, 2, 3], 0)])
     def corrupt2(t): t['ev'][0]['obs'][1] = t['ev'][0]['obs'][0]; return t
     ctx.binding_selftest('trace/Trace_Combinat.tla', clean2, lambda t: len(t['ev']), corrupt2, 'Trace_Combinat: one arrangement yielded twice')
-    ctx.assumptions += ['items are (id, weight) pairs with positive integer weights', 'failure value of exactsum/dynprog: None or False',
+    ctx.assumptions += ['items are (object, weight) pairs with positive integer weights; the objects are ints or opaque (unorderable, unhashable) objects', 'failure value of exactsum/dynprog: None or False',
                         'permutk: multiset of arrangements is what is compared, not their order']
     return ctx.finish('harness enumerates lists / item lists completely within the bounds; TLC (Trace_Combinat over base/Combinat) judges every call of every history')
